@@ -16,7 +16,7 @@ EVIDENCE = dict(
          "widths 1-2 x 5 formatting policies, program text rendered by the spec; -simulate adds 3 entries, widths 1-4, 9 targets; "
          "UTF-16BE/LE strings <= 3 code points from a boundary set; precedence cases (ToUnicode over encoding, BOM over encoding). "
          "Random byte strings through every decoder are validated by FontDecodeTrace (reference decoding, valid UTF-8, NFC). "
-         "Non-trivial = asserted table entry, or any CMap/UTF-16 case; distinct by case record.",
+         "CMap targets include a letter and a combining mark as targets of codes of their own: NFC runs over the whole decoded string (generated pair table, closed under composition). Font dictionaries (FontDict.tla): every way of writing /Encoding (absent, name, dictionary with / without /BaseEncoding, direct or by reference, with or without /Differences) for Type1 and TrueType, through the font constructors and a one-page document. Non-trivial = asserted table entry, or any CMap/UTF-16 case; distinct by case record.",
     assumptions=["golang.org/x/text norm is the NFC oracle of the output invariant", "hand-transcribed Annex D tables (PDFDoc, Standard)"],
 )
 
